@@ -72,6 +72,64 @@ theorem blocksOfRecs_length : ∀ (recs : List Rec) (pu pc : Nat), (blocksOfRecs
   | [], _, _ => rfl
   | r :: rest, pu, pc => by simp [blocksOfRecs, blocksOfRecs_length rest]
 
+/-! ### group bases -/
+
+/-- the Records of the groups before group `k` -/
+def recsBefore (gs : List Group) (k : Nat) : List Rec := (gs.take k).flatMap fun g => g.records.toList
+
+/-- every group starts where the Records before it end: `uncompressed_base` / `compressed_base` are the last
+    cumulative sums before the group (the latter rounded up to 4), `number_base` is the number of its first Record -/
+def GroupsOk (gs : List Group) : Prop :=
+  ∀ (k : Nat) (g : Group), gs[k]? = some g →
+    g.uncompressedBase = lastUnc (recsBefore gs k) 0 ∧ g.compressedBase = vliCeil4 (lastUnp (recsBefore gs k) 0)
+    ∧ g.numberBase = (recsBefore gs k).length + 1
+
+theorem groupsOk_nil : GroupsOk [] := by intro k g h; simp at h
+
+theorem recsBefore_snoc_of_le (front : List Group) (g : Group) {k : Nat} (hk : k ≤ front.length) :
+    recsBefore (front ++ [g]) k = recsBefore front k := by
+  unfold recsBefore; rw [List.take_append_of_le_length hk]
+
+theorem recsBefore_length_eq (gs : List Group) : recsBefore gs gs.length = gs.flatMap fun g => g.records.toList := by
+  unfold recsBefore; rw [List.take_length]
+
+/-- appending a group whose bases continue the Records so far -/
+theorem groupsOk_snoc {gs : List Group} (h : GroupsOk gs) (g : Group)
+    (h1 : g.uncompressedBase = lastUnc (gs.flatMap fun g => g.records.toList) 0)
+    (h2 : g.compressedBase = vliCeil4 (lastUnp (gs.flatMap fun g => g.records.toList) 0))
+    (h3 : g.numberBase = (gs.flatMap fun g => g.records.toList).length + 1) : GroupsOk (gs ++ [g]) := by
+  intro k x hx
+  by_cases hk : k < gs.length
+  · rw [List.getElem?_append_left hk] at hx
+    rw [recsBefore_snoc_of_le gs g (by omega)]
+    exact h k x hx
+  · have hlen := (List.getElem?_eq_some_iff.mp hx).1
+    simp only [List.length_append, List.length_cons, List.length_nil] at hlen
+    have hke : k = gs.length := by omega
+    subst hke
+    have : x = g := by simpa using hx.symm
+    subst this
+    rw [recsBefore_snoc_of_le gs x (Nat.le_refl _), recsBefore_length_eq]
+    exact ⟨h1, h2, h3⟩
+
+/-- replacing the last group by one with the same bases (more Records, or a smaller `allocated`) -/
+theorem groupsOk_replace_last {front : List Group} {g g' : Group} (h : GroupsOk (front ++ [g]))
+    (h1 : g'.uncompressedBase = g.uncompressedBase) (h2 : g'.compressedBase = g.compressedBase)
+    (h3 : g'.numberBase = g.numberBase) : GroupsOk (front ++ [g']) := by
+  intro k x hx
+  by_cases hk : k < front.length
+  · rw [List.getElem?_append_left hk] at hx
+    rw [recsBefore_snoc_of_le front g' (by omega), ← recsBefore_snoc_of_le front g (by omega)]
+    exact h k x (by rw [List.getElem?_append_left hk]; exact hx)
+  · have hlen := (List.getElem?_eq_some_iff.mp hx).1
+    simp only [List.length_append, List.length_cons, List.length_nil] at hlen
+    have hke : k = front.length := by omega
+    subst hke
+    have : x = g' := by simpa using hx.symm
+    subst this
+    rw [recsBefore_snoc_of_le front x (Nat.le_refl _), ← recsBefore_snoc_of_le front g (Nat.le_refl _), h1, h2, h3]
+    exact h front.length g (by simp)
+
 /-! ### the representation invariant -/
 
 structure StreamInv (s : Stream) : Prop where
@@ -80,6 +138,7 @@ structure StreamInv (s : Stream) : Prop where
   count : s.recordCount = s.allRecs.length
   listSz : s.indexListSize = listSize (absStream s).blocks
   gcount : s.groups.count = s.groups.toList.length
+  gbases : GroupsOk s.groups.toList
 
 structure Inv (i : Index) : Prop where
   ne : i.streams.toList ≠ []
